@@ -126,6 +126,7 @@ def runCase (c : S) : List String := Id.run do
     | _ => m) []
   let extra := ((c.find "cmds").map S.args |>.getD []).map S.str
   let env := hostEnv extra (c.find "bare").isSome
+  let noskip := (c.find "noskip").isSome
   let mk := realMarkup
   -- `Props/C01Ranked.fuelFor_sound`: for a Productive program, and for a program whose non-yielding jumps are ranked
   -- (`Ranked.rankOf`), the bound depending on the program alone is never exhausted from a reachable state; other
@@ -157,7 +158,7 @@ def runCase (c : S) : List String := Id.run do
         match lookup st.runners j with
         | none => st := { st with out := st.out.push "NORUNNER" }
         | some hr =>
-          if hr.ends ≥ 3 || tooBig hr.r.d.store then
+          if (hr.ends ≥ 3 && !noskip) || tooBig hr.r.d.store then
             st := { st with out := st.out.push "SKIP" }
           else
           let cRaw := (a.getD 1 (.atom "0")).toNat
